@@ -94,26 +94,26 @@ let dispatch fn a =
   match fn with
   | "clean" -> string_of_text (x_clean (t 0))
   | "iban_new" -> out string_of_text (x_iban_new (Lazy.force banks) (t 0) (b 1) (b 2))
-  | "iban_new_after" -> out string_of_text (x_iban_new (Lazy.force banks) (t 0) (b 1) (b 2))
+  | "iban_new_after" | "iban_new_inst" -> out string_of_text (x_iban_new (Lazy.force banks) (t 0) (b 1) (b 2))
   | "iban_validate_after" -> out string_of_bool' (x_iban_validate (Lazy.force banks) (b 1) (x_clean (t 0)))
   | "iban_validate" -> out string_of_bool' (x_iban_validate (Lazy.force banks) (b 1) (x_clean (t 0)))
   | "iban_is_valid" -> out string_of_bool' (x_iban_is_valid (Lazy.force banks) (x_clean (t 0)))
   | "iban_from_bban" -> out string_of_text (x_iban_from_bban (Lazy.force banks) (t 0) (t 1) (b 2) (b 3))
   | "iban_formatted" -> string_of_text (x_iban_formatted (x_clean (t 0)))
-  | "spec_iban_accept" -> string_of_bool' (s_iso_ok (s_clean (t 0)))
+  | "spec_iban_accept" | "spec_iban_accept_any" -> string_of_bool' (s_iso_ok (s_clean (t 0)))
   | "spec_from_bban" -> "OK " ^ string_of_text (t 0 @ s_check_digits (t 0) (t 1) @ t 1)
   | "re_chars" -> string_of_bool' (x_pat_apply x_chars_method x_chars_pat (t 0))
   | "re_row" ->
     (match x_row_regex (t 0) with
      | Some p -> string_of_bool' (x_pat_apply (method_of_string a.(1)) p (t 2))
      | None -> "NOROW")
-  | "bic_new" -> out string_of_text (x_bic_new (t 0) (b 1) (b 2))
+  | "bic_new" | "bic_new_inst" -> out string_of_text (x_bic_new (t 0) (b 1) (b 2))
   | "bic_validate" -> out string_of_bool' (x_bic_validate (b 1) (x_clean (t 0)))
   | "bic_is_valid" -> out string_of_bool' (x_bic_is_valid (x_clean (t 0)))
   | "bic_formatted" -> string_of_text (x_bic_formatted (x_clean (t 0)))
   | "bic_parts" -> string_of_texts (x_bic_parts (x_clean (t 0)))
   | "re_bic" -> string_of_bool' (x_pat_apply (method_of_string a.(1)) (x_bic_pat (b 0)) (t 2))
-  | "spec_bic_accept" -> string_of_bool' (s_iso9362_ok (b 1) (s_clean (t 0)))
+  | "spec_bic_accept" | "spec_bic_accept_any" -> string_of_bool' (s_iso9362_ok (b 1) (s_clean (t 0)))
   | "spec_iban_verdict" ->
     (match s_iban_verdict (t 0) with None -> "ACCEPT" | Some l -> "REJECT|" ^ String.concat "|" (List.map exn_name l))
   | "spec_bic_verdict" ->
@@ -125,7 +125,7 @@ let dispatch fn a =
   | "bic_formatted_rt" ->
     let s = x_clean (t 0) in let f = x_bic_formatted s in
     string_of_text f ^ "|RT" ^ string_of_bool' (x_text_eqb (x_clean f) s)
-  | "iban_decomp" ->
+  | "iban_decomp" | "iban_decomp_bbanobj" ->
     let s = x_clean (t 0) in
     let cc = x_iban_cc s and bb = x_iban_bban s in
     let comps = List.map (fun k -> out string_of_text (x_bban_component cc bb k)) (texts_of_string a.(1)) in
@@ -166,13 +166,13 @@ let dispatch fn a =
     if i < 0 || i >= Array.length arr then "0" else string_of_bool' (s_wf_bank arr.(i))
   | "spec_wf_country" -> string_of_bool' (s_wf_country (t 0))
   | "validate_national" -> out string_of_bool' (x_national (Lazy.force banks) (t 0) (x_clean (t 1)))
-  | "from_components" ->
+  | "from_components" | "from_components_partial" ->
     out string_of_text (x_from_components (t 0) [(k_bank, t 1); (k_branch, t 2); (k_account, t 3)])
   | "generate" -> out string_of_text (x_generate (Lazy.force banks) (t 0) (t 1) (t 2) (t 3))
   | "spec_national_accept" | "spec_national_accept_after" ->
     let s = x_clean (t 0) in
     string_of_bool' (s_iso_ok s && s_published_ok (x_iban_cc s) (x_iban_bban s))
-  | "spec_only_rejects" | "spec_generate" | "spec_generate_national" | "spec_rebuild" | "spec_random" | "spec_value_laws" | "spec_copies" -> "OK"
+  | "spec_no_foreign_exception" | "spec_only_rejects" | "spec_generate" | "spec_generate_national" | "spec_rebuild" | "spec_random" | "spec_value_laws" | "spec_copies" -> "OK"
   | "spec_published" -> string_of_bool' (s_published_ok (t 0) (t 1))
   | "generated_published" -> if a.(0) = "-" then "SKIP" else string_of_bool' (s_published_ok (t 0) (t 1))
   | "algo_validate" -> out string_of_bool' (x_algo_validate (t 0) (texts_of_string a.(1)) (t 2))
